@@ -196,6 +196,180 @@ theorem canonical_ok_iff (p : Property) (hs : ScopeOK p.scope) (hq : PatOK p.pat
         rw [(sanityCheck_ok_iff s' q' (canonicalScopes_scopeOK hs hs') (canonicalPatterns_patOK hq hq')).2 (hall s' hs' q' hq')] at herr
         cases herr
 
+/-! ## the general form: aliases in split positions are fine as long as no other event references them -/
+
+theorem Bound.mono_avail {ev : Event} {avail avail' : List String} (hb : Bound ev avail) (hsub : ∀ a ∈ avail', a ∈ avail)
+    (hrefs : ∀ r ∈ ev.freeRefs, r ∈ avail → r ∈ avail') : Bound ev avail' :=
+  ⟨fun r hr => hrefs r hr (hb.1 r hr), fun a ha hin => hb.2 a ha (hsub a hin)⟩
+
+/-- the aliases bound in the positions `canonical_form` splits -/
+def splitAliases (p : Property) : List String :=
+  (match p.scope.kind, p.scope.activator with
+    | .after, some a | .afterUntil, some a => a.aliases
+    | _, _ => []) ++
+  (match splitEvent p.pattern with | some e => e.aliases | none => [])
+
+/-- no event references an alias bound in a split position (the situation of the known finding, negated) -/
+def NoRefToSplitAlias (p : Property) : Prop :=
+  (∀ r ∈ p.pattern.behaviour.freeRefs, r ∉ splitAliases p) ∧
+  (∀ t, p.pattern.trigger = some t → ∀ r ∈ t.freeRefs, r ∉ splitAliases p) ∧
+  (∀ q, p.scope.terminator = some q → ∀ r ∈ q.freeRefs, r ∉ splitAliases p)
+
+theorem PatternScoped.shrink {q : Pattern} {avail avail' : List String} (h : PatternScoped q avail)
+    (hsub : ∀ a ∈ avail', a ∈ avail)
+    (hb : ∀ r ∈ q.behaviour.freeRefs, r ∈ avail → r ∈ avail')
+    (ht : ∀ t, q.trigger = some t → ∀ r ∈ t.freeRefs, r ∈ avail → r ∈ avail') : PatternScoped q avail' := by
+  unfold PatternScoped at h ⊢
+  cases hk : q.kind <;> cases htg : q.trigger <;> simp only [hk, htg] at h ⊢
+  all_goals first
+    | exact h.mono_avail hsub hb
+    | skip
+  · -- requirement
+    rename_i t
+    refine ⟨h.1.mono_avail hsub hb, h.2.mono_avail ?_ ?_⟩
+    · intro a ha; rcases List.mem_append.1 ha with h1 | h1
+      · exact List.mem_append.2 (Or.inl h1)
+      · exact List.mem_append.2 (Or.inr (hsub a h1))
+    · intro r hr hin; rcases List.mem_append.1 hin with h1 | h1
+      · exact List.mem_append.2 (Or.inl h1)
+      · exact List.mem_append.2 (Or.inr (ht t htg r hr h1))
+  · -- response
+    rename_i t
+    refine ⟨h.1.mono_avail hsub (ht t htg), h.2.mono_avail ?_ ?_⟩
+    · intro a ha; rcases List.mem_append.1 ha with h1 | h1
+      · exact List.mem_append.2 (Or.inl h1)
+      · exact List.mem_append.2 (Or.inr (hsub a h1))
+    · intro r hr hin; rcases List.mem_append.1 hin with h1 | h1
+      · exact List.mem_append.2 (Or.inl h1)
+      · exact List.mem_append.2 (Or.inr (hb r hr h1))
+  · -- prevention
+    rename_i t
+    refine ⟨h.1.mono_avail hsub (ht t htg), h.2.mono_avail ?_ ?_⟩
+    · intro a ha; rcases List.mem_append.1 ha with h1 | h1
+      · exact List.mem_append.2 (Or.inl h1)
+      · exact List.mem_append.2 (Or.inr (hsub a h1))
+    · intro r hr hin; rcases List.mem_append.1 hin with h1 | h1
+      · exact List.mem_append.2 (Or.inl h1)
+      · exact List.mem_append.2 (Or.inr (hb r hr h1))
+
+theorem canonicalScopes_cases {s s' : Scope} (hs' : s' ∈ canonicalScopes s) :
+    s' = s ∨ ∃ a e, s.activator = some a ∧ (s.kind = .after ∨ s.kind = .afterUntil) ∧ e ∈ a.simpleEvents ∧ s' = { s with activator := some e } := by
+  unfold canonicalScopes at hs'
+  split at hs'
+  · rename_i a hk ha
+    obtain ⟨e, he, rfl⟩ := List.mem_map.1 hs'
+    exact Or.inr ⟨a, e, ha, Or.inl hk, he, rfl⟩
+  · rename_i a hk ha
+    obtain ⟨e, he, rfl⟩ := List.mem_map.1 hs'
+    exact Or.inr ⟨a, e, ha, Or.inr hk, he, rfl⟩
+  · simp only [List.mem_singleton] at hs'; exact Or.inl hs'
+
+theorem canonicalPatterns_scoped {q q' : Pattern} (hq' : q' ∈ canonicalPatterns q)
+    (hb : ∀ r ∈ q.behaviour.freeRefs, ∀ e, splitEvent q = some e → r ∉ e.aliases)
+    (ht : ∀ t, q.trigger = some t → ∀ r ∈ t.freeRefs, ∀ e, splitEvent q = some e → r ∉ e.aliases) :
+    (∀ avail, PatternScoped q avail → PatternScoped q' avail) ∧
+    (∀ r ∈ q'.behaviour.freeRefs, r ∈ q.behaviour.freeRefs) ∧
+    (∀ t', q'.trigger = some t' → ∃ t, q.trigger = some t ∧ ∀ r ∈ t'.freeRefs, r ∈ t.freeRefs) := by
+  have keep : ∀ {ev : Event} {X Y avail : List String}, Bound ev (X ++ avail) → (∀ a ∈ Y, a ∈ X) → (∀ r ∈ ev.freeRefs, r ∉ X) →
+      Bound ev (Y ++ avail) := by
+    intro ev X Y avail h hsub hno
+    refine h.mono_avail ?_ ?_
+    · intro a ha; rcases List.mem_append.1 ha with h1 | h1
+      · exact List.mem_append.2 (Or.inl (hsub a h1))
+      · exact List.mem_append.2 (Or.inr h1)
+    · intro r hr hin; rcases List.mem_append.1 hin with h1 | h1
+      · exact absurd h1 (hno r hr)
+      · exact List.mem_append.2 (Or.inr h1)
+  unfold canonicalPatterns at hq'
+  unfold splitEvent at hb ht
+  cases hk : q.kind <;> simp only [hk, PatternKind.isSafety, if_true, Bool.false_eq_true, if_false] at hq' hb ht
+  · -- absence
+    obtain ⟨e, he, rfl⟩ := List.mem_map.1 hq'
+    refine ⟨fun avail h => ?_, fun r hr => (simpleEvents_sub _ e he).1 r hr, fun t' ht' => ⟨t', ht', fun _ h => h⟩⟩
+    unfold PatternScoped at h ⊢
+    simp only [hk] at h ⊢
+    exact h.of_alternative he
+  · -- existence
+    simp only [List.mem_singleton] at hq'; subst hq'
+    exact ⟨fun _ h => h, fun _ h => h, fun t' ht' => ⟨t', ht', fun _ h => h⟩⟩
+  · -- requirement
+    obtain ⟨e, he, rfl⟩ := List.mem_map.1 hq'
+    refine ⟨fun avail h => ?_, fun r hr => (simpleEvents_sub _ e he).1 r hr, fun t' ht' => ⟨t', ht', fun _ h => h⟩⟩
+    unfold PatternScoped at h ⊢
+    cases htg : q.trigger with
+    | none => simp only [hk, htg] at h
+    | some t =>
+      simp only [hk, htg] at h ⊢
+      exact ⟨h.1.of_alternative he, keep h.2 (simpleEvents_sub _ e he).2.1 (fun r hr => ht t htg r hr _ rfl)⟩
+  · -- response
+    cases htg : q.trigger with
+    | none =>
+      simp only [htg, List.mem_singleton] at hq'; subst hq'
+      exact ⟨fun _ h => h, fun _ h => h, fun t' ht' => by rw [htg] at ht'; cases ht'⟩
+    | some t =>
+      simp only [htg] at hq' hb
+      obtain ⟨e, he, rfl⟩ := List.mem_map.1 hq'
+      refine ⟨fun avail h => ?_, fun _ h => h, fun t' ht' => ⟨t, rfl, ?_⟩⟩
+      · unfold PatternScoped at h ⊢
+        simp only [hk, htg] at h ⊢
+        exact ⟨h.1.of_alternative he, keep h.2 (simpleEvents_sub _ e he).2.1 (fun r hr => hb r hr _ rfl)⟩
+      · cases ht'; exact fun r hr => (simpleEvents_sub _ e he).1 r hr
+  · -- prevention
+    obtain ⟨e, he, rfl⟩ := List.mem_map.1 hq'
+    refine ⟨fun avail h => ?_, fun r hr => (simpleEvents_sub _ e he).1 r hr, fun t' ht' => ⟨t', ht', fun _ h => h⟩⟩
+    unfold PatternScoped at h ⊢
+    cases htg : q.trigger with
+    | none => simp only [hk, htg] at h
+    | some t =>
+      simp only [hk, htg] at h ⊢
+      exact ⟨h.1, h.2.of_alternative he⟩
+
+/-- **`canonical_form` is total unless an event references an alias bound in a split position**: on an accepted property in which
+    no event references an alias bound by the activator of an `after` scope, by the behaviour of a safety pattern or by the trigger
+    of a response, every copy is well-scoped, so `canonical_form` returns its non-empty list — the known finding
+    `C11-split-unbinds-alias` (a later event references an alias that only one alternative binds) is the only obstacle -/
+theorem canonical_total_noRef (p : Property) (hs : ScopeOK p.scope) (hq : PatOK p.pattern) (hw : WellScoped p.scope p.pattern)
+    (hno : NoRefToSplitAlias p) : ∃ qs, canonical p = .ok qs ∧ qs ≠ [] := by
+  have hex : ∃ qs, canonical p = .ok qs := by
+    refine (canonical_ok_iff p hs hq).2 (Or.inr (fun s' hs' q' hq' => ?_))
+    have hSP : ∀ r, r ∉ splitAliases p → ∀ e, splitEvent p.pattern = some e → r ∉ e.aliases := by
+      intro r hr e he hin
+      apply hr
+      unfold splitAliases
+      rw [he]
+      exact List.mem_append.2 (Or.inr hin)
+    obtain ⟨hscoped, hbsub, htsub⟩ := canonicalPatterns_scoped hq'
+      (fun r hr e he => hSP r (hno.1 r hr) e he) (fun t ht r hr e he => hSP r (hno.2.1 t ht r hr) e he)
+    have hp1 := hscoped _ hw.2.1
+    rcases canonicalScopes_cases hs' with rfl | ⟨a, e, ha, hk, he, rfl⟩
+    · exact ⟨hw.1, hp1, hw.2.2⟩
+    · have hSA : ∀ r, r ∉ splitAliases p → r ∉ a.aliases := by
+        intro r hr hin
+        apply hr
+        unfold splitAliases
+        refine List.mem_append.2 (Or.inl ?_)
+        rcases hk with hk | hk <;> simp only [hk, ha] <;> exact hin
+      have hact : actAliases p.scope = a.aliases := by simp only [actAliases, ha]
+      have hact' : actAliases ({ p.scope with activator := some e } : Scope) = e.aliases := by simp only [actAliases]
+      refine ⟨?_, ?_, ?_⟩
+      · intro a' ha' r hr; cases ha'
+        exact hw.1 a ha r ((simpleEvents_sub a e he).1 r hr)
+      · rw [hact']
+        rw [hact] at hp1
+        refine hp1.shrink (fun x hx => (simpleEvents_sub a e he).2.1 x hx) ?_ ?_
+        · intro r hr hin; exact absurd hin (hSA r (hno.1 r (hbsub r hr)))
+        · intro t' ht' r hr hin
+          obtain ⟨t, ht, hsub⟩ := htsub t' ht'
+          exact absurd hin (hSA r (hno.2.1 t ht r (hsub r hr)))
+      · intro qt hqt
+        rw [hact']
+        have := hw.2.2 qt hqt
+        rw [hact] at this
+        exact this.mono_avail (fun x hx => (simpleEvents_sub a e he).2.1 x hx)
+          (fun r hr hin => absurd hin (hSA r (hno.2.2 qt hqt r hr)))
+  obtain ⟨qs, h⟩ := hex
+  exact ⟨qs, h, canonical_nonempty p qs h⟩
+
 /-- the hypotheses are met by a property that is really split (2 scopes × 3 patterns) -/
 example : ScopeOK exC11.scope ∧ PatOK exC11.pattern ∧ WellScoped exC11.scope exC11.pattern ∧ SplitsBindNothing exC11 ∧
     ∃ qs, canonical exC11 = .ok qs ∧ qs.length = 6 := by
@@ -204,5 +378,20 @@ example : ScopeOK exC11.scope ∧ PatOK exC11.pattern ∧ WellScoped exC11.scope
   · simp [PatOK, EvOK, exC11, evS, Event.quantOK, Pred.quantOK, Event.aliases]
   · exact (wellScopedB_iff _ _).1 (by decide)
   · simp [SplitsBindNothing, splitEvent, exC11, evS, Event.aliases, PatternKind.isSafety]
+
+/-- an alias bound in a split position and referenced nowhere: `after (a as A or b): no c` is split in two -/
+def exC14d : Property :=
+  ⟨⟨.after, some (.disj (.simple "a" (some "A") .vtrue) (evS "b")), none⟩, ⟨.absence, evS "c", none, 0, none⟩, []⟩
+
+example : ScopeOK exC14d.scope ∧ PatOK exC14d.pattern ∧ WellScoped exC14d.scope exC14d.pattern ∧ NoRefToSplitAlias exC14d ∧
+    ¬ SplitsBindNothing exC14d ∧ ∃ qs, canonical exC14d = .ok qs ∧ qs.length = 2 := by
+  refine ⟨?_, ?_, ?_, ?_, ?_, _, rfl, rfl⟩
+  · simp [ScopeOK, EvOK, exC14d, evS, Event.quantOK, Pred.quantOK, Event.aliases]
+  · simp [PatOK, EvOK, exC14d, evS, Event.quantOK, Pred.quantOK, Event.aliases]
+  · exact (wellScopedB_iff _ _).1 (by decide)
+  · simp [NoRefToSplitAlias, exC14d, evS, Event.freeRefs, Pred.freeVars]
+  · intro h
+    have := h.1 _ rfl (Or.inl rfl)
+    simp [Event.aliases, evS] at this
 
 end Hpl
